@@ -2,6 +2,7 @@
 //! Usage: erbium-verif <PROPERTY> <quick|thorough>   or   erbium-verif <PROPERTY> --replay <file>
 mod checks;
 mod common;
+mod ecrash;
 mod ehist;
 mod enet;
 mod httprig;
@@ -53,6 +54,9 @@ fn main() {
     } else {
         (args[2].clone(), None)
     };
+    if prop == "C18" && tier == "crash-child" {
+        checks::c18::crash_child(args[3].parse().unwrap(), args[4].parse().unwrap(), &args[5]);
+    }
     if tier == "worker" {
         // erbium-verif <PROP> worker <tier> <shard> <nshards>
         common::logsink::install(log::LevelFilter::Trace);
@@ -85,6 +89,7 @@ fn main() {
         "C07" => checks::c07::run(&tier, replay),
         "C15" => checks::c15::run(&tier, replay),
         "C16" => checks::c16::run(&tier, replay),
+        "C18" => checks::c18::run(&tier, replay),
         "C06" => checks::c06::run(&tier, replay),
         "C08" => checks::c08::run(&tier, replay),
         "C17" => checks::c17::run(&tier, replay),
